@@ -16,7 +16,7 @@ Trace == ndJsonDeserialize("trace.ndjson")
 VARIABLE l       \* next line of Trace to consume
 tvars == <<vars, l>>
 
-TObjs == {"r1", "r2", "r3", "r4", "r5", "h1", "h2", "h3", "h4", "by1", "by2"}
+TObjs == {"r1", "r2", "r3", "r4", "r5", "h1", "h2", "h3", "h4", "by1", "by2", "c1", "c2"}
 
 (* ----- JSON -> abstract state ------------------------------------------- *)
 
@@ -58,7 +58,7 @@ MOf(e) == [kind |-> e.op, chart |-> IF e.chart = "" THEN "none" ELSE e.chart,
            replace |-> e.flags.replace, atomic |-> e.flags.atomic, cleanup |-> e.flags.cleanupOnFail,
            keep |-> e.flags.keepHistory, nohooks |-> e.flags.noHooks, lim |-> e.flags.maxHistory,
            ver |-> e.flags.version, dry |-> e.flags.dryRun, takeown |-> e.flags.takeOwnership,
-           clientOnly |-> e.flags.clientOnly]
+           clientOnly |-> e.flags.clientOnly, createNS |-> e.flags.createNamespace, skipCRDs |-> e.flags.skipCRDs]
 
 LabOf(e) == Lab(e.proc, "call", e.kind, e.verb, e.id, e.ok, e.inj)
 
